@@ -309,6 +309,19 @@ def h03e_pre(e1, e2, e3, ttl):
     return 0 <= ttl <= 2**31 - 1
 
 
+def h03f(max_size: int, l0: int, l1: int) -> bool:
+    """After a record set was rolled back for size, every pointer emitted later still targets an earlier occurrence of exactly that suffix (independent walker)."""
+    import harness.C08 as C08
+
+    return C08.h08c(max_size, l0, l1)
+
+
+def h03f_pre(max_size, l0, l1):
+    import harness.C08 as C08
+
+    return C08.h08c_pre(max_size, l0, l1)
+
+
 HARNESSES = [
     Harness("H03a", h03a, h03a_pre, h03a_shards, kind="universal",
             encodes=["dns.message.Message.to_wire", "dns.renderer.Renderer.write_header", "dns.renderer.Renderer.add_opt", "dns.message.Message.use_edns",
@@ -330,6 +343,10 @@ HARNESSES = [
                      "dns.rdataset.Rdataset.to_wire"],
             bound="1 symbolic update operation (10 kinds x 3 names x 4 records), and 2 operations with the first from {add, delete rdata, present rdata} (thorough: all); TTL symbolic",
             stubs=["E1", "E5", "E6", "E8"], outside="longer update scripts"),
+    Harness("H03f", h03f, h03f_pre, lambda tier: [{"_timeout": 900, "_path_timeout": 60}], kind="universal",
+            encodes=["dns.renderer.Renderer._rollback", "dns.renderer.Renderer._track_size", "dns.name.Name.to_wire"],
+            bound="Renderer: question, a 400-octet rrset that may overflow, then a small rrset of the same owner whose rdata name ends in it; max_size symbolic 30..600, two symbolic owner labels",
+            stubs=["E1", "E6"], outside="longer sequences"),
     Harness("H03e", h03e, h03e_pre, lambda tier: [{"_timeout": 300}], kind="finite selection",
             encodes=["dns.rdataset.Rdataset.to_wire", "dns.rrset.RRset.to_wire"],
             bound="empty / non-empty rrset in each of the three RR sections (8 combinations), TTL symbolic", stubs=["E1", "E8"], outside=""),
